@@ -9,6 +9,7 @@ import Proofs.Counted
 import Proofs.NoIdleGlobal
 import Proofs.EarliestFit
 import Proofs.DepMile
+import Proofs.NoIdleBack
 import Properties.C09
 /-! driver command `J {"op":"sched", …}`: run the scheduler model on one scenario projection -/
 namespace SPD
@@ -215,6 +216,19 @@ def runSched (j : Json) : Json :=
       !((List.range (L - b + 1).toNat).all (fun k =>
         let i := b + (k : Int)
         !(e.onShift r i && !e.leaveMark r i) || !(σ.led.get r i).usage.isEmpty || exhaustedB e σ t r i)))
+  -- C08.no_idle_final_alap: between the first booked slot and the last slot before the deadline
+  let alapTasks := (List.range e.tasks.size).filter (fun t =>
+    eligB e t && (e.resD ((e.taskD t).alloc.headD 0)).leaf && (σ.tst t).scheduled && !(σ.tst t).forward)
+  let alapFail := alapTasks.filter (fun t =>
+    let r := (e.taskD t).alloc.headD 0
+    let booked := (σ.led.m.toList.filter (fun (ks : Key × Slot) => ks.1.1 == r && (usageOf ks.2.usage t).isSome)).map (fun ks => ks.1.2)
+    let hi := e.idx (deadlineG e (loopStart e) σ t) - 1
+    match booked.foldl (fun (m : Option Int) i => match m with | none => some i | some x => some (min x i)) none with
+    | none => false
+    | some L =>
+      !((List.range (hi - L + 1).toNat).all (fun k =>
+        let i := L + (k : Int)
+        !(e.onShift r i && !e.leaveMark r i) || !(σ.led.get r i).usage.isEmpty || exhaustedB e σ t r i)))
   let idleUnlimited := (idleTasks.filter (fun t => (resLimitIds e ((e.taskD t).alloc.headD 0)).isEmpty && (taskLimitIds e t).isEmpty)).length
   -- C07.earliest_fit_in_placement_order, with the loop's own order: a working slot in [bound, last] carries the task or an earlier one
   let σ0 := preLoop e (prepare e (initState e))
@@ -258,6 +272,7 @@ def runSched (j : Json) : Json :=
                          ("back_edges", Json.num (JsonNumber.fromNat backPairs.length)), ("back_fail", Json.num (JsonNumber.fromNat backFail.length)),
                          ("idle_tasks", Json.num (JsonNumber.fromNat idleTasks.length)), ("idle_fail", Json.num (JsonNumber.fromNat idleFail.length)),
                          ("idle_tasks_unlimited", Json.num (JsonNumber.fromNat idleUnlimited)),
+                         ("alap_tasks", Json.num (JsonNumber.fromNat alapTasks.length)), ("alap_idle_fail", Json.num (JsonNumber.fromNat alapFail.length)),
                          ("fit_fail", Json.num (JsonNumber.fromNat fitFail.length)),
                          ("placed", Json.num (JsonNumber.fromNat order.length)), ("order_fail", Json.num (JsonNumber.fromNat ordFail.length)),
                          ("limit_periods", Json.num (JsonNumber.fromNat limChecks.length)), ("limit_fail", Json.num (JsonNumber.fromNat limFail.length)),
